@@ -77,7 +77,7 @@ def run_history(cell, steps):
                     await listing()
                     continue
                 elif name == 'fail_next_resume':
-                    for hid in ('hr', 'hrd'):
+                    for hid in ('hrd',):      # one of the two resume handlers fails temporarily, the other succeeds
                         n = len([i for i in w.invocations if i['id'] == hid])
                         seq = w.outcomes.setdefault(hid, [])
                         while len(seq) <= n:
@@ -142,10 +142,12 @@ def h_resume(s0: int, s1: int, s2: int, s3: int) -> bool:
 
 
 def obligations():
-    obs = split(Ob('h_resume', {'n': 2, 'handled_before': True}, timeout=1800, path_timeout=300, twins=['resumed']),
-                s0=list(range(6)), s1=list(range(6)))
-    obs += split(Ob('h_resume', {'n': 2, 'handled_before': False}, timeout=1800, path_timeout=300, tiers=('thorough',)),
+    obs = split(Ob('h_resume', {'n': 2, 'handled_before': True}, timeout=1200, path_timeout=300, twins=['resumed']),
+                s0=list(range(6)))
+    obs.append(Ob('h_resume', {'n': 3, 'handled_before': True, 'pin': {'s0': 3, 's1': 2, 's2': 1}}, timeout=900, path_timeout=300))
+    obs.append(Ob('h_resume', {'n': 3, 'handled_before': True, 'pin': {'s0': 3, 's1': 2, 's2': 0}}, timeout=900, path_timeout=300))
+    obs += split(Ob('h_resume', {'n': 3, 'handled_before': False}, timeout=3000, path_timeout=300, tiers=('thorough',)),
                  s0=list(range(6)), s1=list(range(6)))
     obs += split(Ob('h_resume', {'n': 3, 'handled_before': True}, timeout=3000, path_timeout=300, tiers=('thorough',)),
-                 s0=list(range(6)), s1=list(range(6)), s2=list(range(6)))
+                 s0=list(range(6)), s1=list(range(6)))
     return obs
